@@ -873,6 +873,8 @@ def Array_iadd_prefactor_other(self, prefactor, other):
             raise ValueError("Arrays can't have different `qtotal`!")
     if prefactor == 0.:
         return self # nothing to do
+    if other is self:
+        other = other.copy()  # the BLAS calls below must not get the same memory for both arguments
     self.isort_qdata()
     other.isort_qdata()
     other = other._transpose_same_labels(self._labels)
